@@ -180,13 +180,21 @@ def run_program(E: L.Examiner, program: G.Program, black: bool, hashseed: int, r
             lines = [l for l in text.strip().splitlines() if l.strip() and not l.startswith("INFO")]
             tail = " | ".join(lines[-3:])
             cls = "general"
-            m = re.search(r"Unable to find definition for (\w+) in (\w+)", text)
-            if m:
+            def kind(n):
                 try:
-                    if program.by_name(m.group(1)).kind == "message" and program.by_name(m.group(2)).kind == "struct":
-                        cls = "struct-reuses-imported-message"
+                    return program.by_name(n).kind
                 except Exception:
-                    pass
+                    return None
+
+            m = re.search(r"Unable to find definition for (\w+) in (\w+)", text)
+            if m and kind(m.group(1)) == "message" and kind(m.group(2)) == "struct":
+                cls = "struct-reuses-imported-message"
+            m = re.search(r"Unable to resolve alias (\w+): (\w+)", text)
+            if m and kind(m.group(1)) == "alias" and kind(m.group(2)) == "struct":
+                cls = "alias-of-imported-struct"
+            m = re.search(r"Unknown type specified \((\w+)\): (\w+)=>", text)
+            if m and kind(m.group(1)) == "message" and kind(m.group(2)) == "struct":
+                cls = "struct-contains-message"
             out.append((f"combined/recompile-fails/{cls}", f"the combined YAML of an accepted closure does not compile (rc {rc}): {tail[:300]}"))
             return out
         try:
@@ -249,7 +257,9 @@ def shard_programs(seed, n, idx, n_black):
             if len(res.samples) < 1:
                 res.sample({"shape": program.shape, "options": program.options, "files": list(program.files), "black": black, "hashseed": hs})
 
-        hyp_run(body, st.one_of(G.programs(), G.programs(skeleton=True), G.programs(skeleton=True, rich=True)), seed, n, res, collect=True)
+        cross = ("alias-of-imported-struct", "alias-of-imported-struct-field", "struct-contains-message", "string-special", "prefix-names")
+        hyp_run(body, st.one_of(G.programs(), G.programs(skeleton=True), G.programs(skeleton=True, rich=True), G.programs(skeleton=True, allow=cross)),
+                seed, n, res, collect=True)
     finally:
         E.close()
         L.cleanup()
